@@ -84,6 +84,9 @@ structure Version where
   attrs : VAttrs := {}
   deriving Repr, DecidableEq, Inhabited
 
+/-- `resolve.Version` under a name that does not clash with `semver.Version`. -/
+abbrev RVersion := Version
+
 /-- `tags, _ := v.GetAttr(version.Tags)`: the empty string when absent. -/
 def Version.tagsStr (v : Version) : Bytes :=
   match v.attrs.tags with
